@@ -225,6 +225,15 @@ def plan_wire(pid, rng, quick):
                 b["signal"] = rng.choice(["traces", "logs", "metrics"])
         st["nodecode"] = True
         plan.append(st)
+    # a refused request in the middle of a walked stream: batch ids count the EMITTED batches
+    for signal, with_ in (("traces", "spanattr"), ("logs", "logattr"), ("metrics", "plain")):
+        for rep in range(1 if quick else 4):
+            big = {"gen": "parents", "n": 65537 if with_ != "plain" else 65540, "nres": 1, "with": with_, "nodump": True}
+            bs = [otap.rand_batch(rng, rich=2), big, otap.rand_batch(rng, rich=2), otap.rand_batch(rng, rich=1)]
+            if rep % 2:
+                bs.insert(0, dict(otap.rand_batch(rng, rich=1), signal=rng.choice(["traces", "logs", "metrics"])))
+            plan.append({"id": "wire-refused/%s/%d" % (signal, rep), "signal": signal, "opts": {}, "batches": bs,
+                         "props": [], "mode": 2, "nodecode": True})
     # sibling records of one shape: every attribute map of a batch has the same columns, every metric kind and every
     # exemplar / event / link attribute record occurs, so all records of one family share an Arrow schema signature
     for signal in ("traces", "logs", "metrics"):
